@@ -189,7 +189,7 @@ func (x *Exec) reflectKind(s *State, v T) T {
 }
 
 // lockOp maintains the ghost lock state and emits the lock-discipline obligations.
-func (x *Exec) lockOp(s *State, in *ssa.Call, op string, mu Val) {
+func (x *Exec) lockOp(s *State, in ssa.Instruction, op string, mu Val) {
 	key := mu.Key + "@" + mu.Base.S
 	cur := s.locks[key]
 	lab := x.label(in)
@@ -243,7 +243,7 @@ func (x *Exec) lockAcquire(s *State, mu Val) {
 }
 
 // lockRelease: the writer hands the guarded state back satisfying the lock invariant.
-func (x *Exec) lockRelease(s *State, in *ssa.Call) {
+func (x *Exec) lockRelease(s *State, in ssa.Instruction) {
 	if x.fnc == nil {
 		return
 	}
